@@ -205,6 +205,7 @@ func singletonObservations(r *Run, o *Obs) (perReg map[int]int) {
 }
 
 func runC01(c *eng.Ctx) {
+	BuildDoors = true // Build / BuildWithContext / BuildWithOptions in turn (a function of the spec)
 	cr := &caseRunner{c: c, prop: "C01"}
 	defer func() {
 		RunTwoBuilds(c, "C01", cr.next)
@@ -401,6 +402,7 @@ func init() {
 }
 
 func runC03(c *eng.Ctx) {
+	BuildDoors = true // Build / BuildWithContext / BuildWithOptions in turn (a function of the spec)
 	cr := &caseRunner{c: c, prop: "C03"}
 	defer func() { RunOptionalRetryC03(c, cr.next) }()
 	defer func() {
